@@ -330,7 +330,7 @@ class Contract:
     def __init__(self, qual, requires=(), ensures=(), modifies=(), result=None, loops=None, asserts=None,
                  types=None, tags=(), params=None, self_cls=None, setup=None, inline_calls=(), pure=False,
                  exc_ensures=None, havoc_locals=None, notes='', ghost_return=(), ghost_before=None, ledger_inv=(),
-                 msg_asserts=None, assumed=False, dead=()):
+                 msg_asserts=None, assumed=False, dead=(), ghost_after_assign=None, ghost_return_at=None):
         self.qual = qual
         self.tags = list(tags)
         self.requires = clauses(requires, tags)
@@ -348,6 +348,8 @@ class Contract:
         self.ghost_before = dict(ghost_before or {})    # 'Callee#k' -> [(path, expr)] ghost assignments before that call
         self.ledger_inv = clauses(ledger_inv, tags)     # default invariant of loops that touch the ledger
         self.msg_asserts = {k: clauses(v, tags) for k, v in (msg_asserts or {}).items()}  # message literal -> clauses
+        self.ghost_after_assign = dict(ghost_after_assign or {})   # local name -> [(path, expr)] ghost assignments after any assignment to it
+        self.ghost_return_at = dict(ghost_return_at or {})         # 'return#k' -> [(path, expr)]
         self.dead = set(dead)                           # labels of paths expected to be infeasible under the precondition
         self.assumed = assumed                          # contract is assumed (not verified against the body)
 
@@ -390,8 +392,12 @@ class Frame:
             nm = callee_name(n)
             cnt[nm] = cnt.get(nm, 0) + 1
             self.call_ord[id(n)] = (nm, cnt[nm])
+        lc = {}
         for i, n in enumerate(loops):
-            self.loop_ord[id(n)] = i
+            sig = 'while' if isinstance(n, ast.While) else 'for:' + (n.target.id if isinstance(n.target, ast.Name) else 'tuple')
+            lc[sig] = lc.get(sig, -1) + 1
+            # loops are keyed by kind + loop variable + ordinal among those: inserting or moving an unrelated loop does not shift the key
+            self.loop_ord[id(n)] = '%s#%d' % (sig, lc[sig])
 
 
 def callee_name(call):
@@ -493,10 +499,10 @@ class Engine:
             self.cover(x, lab, con.tags, ln)
             res = x.env.get('__ret__', NONE)
             x.env['result'] = res
-            for c in con.asserts.get('return', []):
+            for c in con.asserts.get('return', []) + con.asserts.get(lab, []):
                 v = self.eval_clause(c, x, fr.old)
                 self.oblige(x, v, 'assert', c.label, c.tags, ln, site=lab)
-            for path, ex in con.ghost_return:
+            for path, ex in con.ghost_return + con.ghost_return_at.get(lab, []):
                 self.ghost_assign(path, ex, x, fr.old)
             self.check_post(con, x, fr.old, res, lab, ln)
             self.check_frame(con, x, fr.old, lab, ln)
@@ -588,9 +594,18 @@ class Engine:
             self.ev(s.value, st)
             return st
         if isinstance(s, ast.Assign):
+            if d.assign_stmt(self, s, st):
+                return st
             v = self.ev(s.value, st)
             for t in s.targets:
                 self.assign(t, v, st)
+            fr = self.frames[-1]
+            if len(self.frames) == 1 and fr.contract is not None and fr.contract.ghost_after_assign:
+                names = assigned_names([s])
+                for nm, gl in fr.contract.ghost_after_assign.items():
+                    if nm in names:
+                        for path, ex in gl:
+                            self.ghost_assign(path, ex, st, fr.old)
             return st
         if isinstance(s, ast.AugAssign):
             cur = self.ev(s.target, st)
@@ -707,7 +722,7 @@ class Engine:
     def run_loop(self, s, st, ctl):
         d = self.dom
         fr = self.frames[-1]
-        ordinal = fr.loop_ord.get(id(s), -1)
+        ordinal = fr.loop_ord.get(id(s), '?')
         con = fr.contract
         top = (len(self.frames) == 1)
         inv = list(con.loops.get(ordinal, [])) if (con and top) else []
@@ -736,7 +751,7 @@ class Engine:
             extra0 = {it_name: lo, 'i_': lo}
         for c in inv + inv_default:
             v = self.eval_clause(c, entry, fr.old, extra0)
-            self.oblige(entry, v, 'inv-init', c.label, c.tags, s.lineno, site='loop%d' % ordinal)
+            self.oblige(entry, v, 'inv-init', c.label, c.tags, s.lineno, site=ordinal)
         # havoc
         h = entry.copy()
         names = assigned_names(s.body) | ({it_name} if it_name else set())
@@ -787,7 +802,7 @@ class Engine:
                 extra = {it_name: nxt, 'i_': nxt}
             for c in inv + inv_default:
                 v = self.eval_clause(c, x, fr.old, extra)
-                self.oblige(x, v, 'inv-preserve', c.label, c.tags, ln, site='loop%d.%s' % (ordinal, blab), meta={'backedge_line': ln})
+                self.oblige(x, v, 'inv-preserve', c.label, c.tags, ln, site='%s.%s' % (ordinal, blab), meta={'backedge_line': ln})
         ctl.ret += inner.ret
         ctl.exc += inner.exc
         for ln, x in inner.brk:
@@ -816,7 +831,7 @@ class Engine:
     # -------------------------------------------------------------- assignment
     def assign(self, t, v, st, aug=False):
         if isinstance(t, ast.Name):
-            st.env[t.id] = v
+            st.env[t.id] = self.dom.on_assign_name(t.id, v, st)
         elif isinstance(t, (ast.Tuple, ast.List)):
             vs = v if isinstance(v, tuple) else (tuple(v.items) if isinstance(v, ListV) else None)
             for i, x in enumerate(t.elts):
